@@ -146,7 +146,7 @@ def validate(final, targets, deps_of):
                 if st is None:
                     kind = "blocker" if all(a["blk"] for a in clause) else "dependency"
                     txt = clause[0]["text"] if len(clause) == 1 else "|| ( " + " ".join(a["text"] for a in clause) + " )"
-                    msgs.append((f"{c}-{kind}", f"{c} {kind} {txt} of merged {fmt_pkg(q)} is not satisfied by the final state"))
+                    msgs.append((f"{c}-{kind}", f"{c} {kind} {txt} of merged {fmt_pkg(q)} is not satisfied by the final state", [c, txt, fmt_pkg(q)]))
                 else:
                     k = f"clause|{c}|{st}"
                     cc[k] = cc.get(k, 0) + 1
@@ -301,8 +301,9 @@ def check_case(uni, targets, kind, trees=None):
     info["cc"] = cc
     info["final"] = sorted(final)
     msgs = msgs + m2
-    info["tags"] = sorted({t for t, _ in msgs})
-    msgs = [m for _, m in msgs]
+    info["tags"] = sorted({m[0] for m in msgs})
+    info["unsat"] = [m[2] for m in msgs if len(m) > 2]
+    msgs = [m[1] for m in msgs]
     if msgs:
         plan = ", ".join(
             (f"{o[0]} {fmt_pkg(o[1])}" + (f" (was {fmt_pkg(o[2])})" if len(o) > 2 else "")) for o in res["ops"]
@@ -469,7 +470,11 @@ def slim(uni):
 
 def make_case(uni, targets, kind, msg, info):
     what = "crash" if info["outcome"] == "crash" else "invalid-plan"
-    return {"what": what, "tags": info["tags"], "uni": slim(uni), "targets": list(targets), "kind": kind, "msg": msg}
+    c = {"what": what, "tags": info["tags"], "uni": slim(uni), "targets": list(targets), "kind": kind, "msg": msg}
+    if what == "invalid-plan":
+        c["unsat"] = info.get("unsat", [])
+        c["final"] = [fmt_pkg(q) for q in info.get("final", [])]
+    return c
 
 
 def replay(case):
@@ -493,7 +498,61 @@ def _k_idepend_ignored(case):
     return case.get("what") == "invalid-plan" and bool(tags) and all(t in ("IDEPEND-dependency", "IDEPEND-blocker") for t in tags)
 
 
+def _k_slot_cycle_wrong_version(case):
+    """Every unsatisfied clause is a single versioned atom, the final state holds a source package of that name with a version
+    the atom rejects, and that package depends (transitively, by package name) on the clause's owner -- i.e. the rejected
+    version was on the resolution stack when the atom was looked at (check_for_cycles accepts any same-name same-slot
+    package on the stack as satisfying an atom)."""
+    tags = case.get("tags") or []
+    if case.get("what") != "invalid-plan" or not tags or not all(t.endswith("-dependency") for t in tags):
+        return False
+    unsat = case.get("unsat") or []
+    if not unsat:
+        return False
+    fin = []
+    for f in case.get("final") or []:
+        inst = f.endswith("[installed]")
+        nv, slot = f.split("[")[0].rsplit(":", 1)
+        name, ver = nv.split("/", 1)[1].rsplit("-", 1)
+        fin.append((name, int(ver), slot, "inst" if inst else "src"))
+    deps = {(n, v, s): d for n, v, s, d in case["uni"]["src"]}
+    edges = {}
+    for q in fin:
+        if q[3] != "src":
+            continue
+        for c in CLS:
+            for clause in parse_dep(deps[q[:3]].get(c, "")):
+                for a in clause:
+                    if not a["blk"]:
+                        edges.setdefault(q[0], set()).add(a["name"])
+
+    def reaches(src, dst):
+        seen, todo = set(), [src]
+        while todo:
+            n = todo.pop()
+            for m in edges.get(n, ()):
+                if m == dst:
+                    return True
+                if m not in seen:
+                    seen.add(m)
+                    todo.append(m)
+        return False
+
+    for _cls, txt, owner in unsat:
+        if txt.startswith("||"):
+            return False
+        a = parse_atom(txt)
+        if not a["op"]:
+            return False
+        owner_name = owner.split("/", 1)[1].rsplit("-", 1)[0]
+        wrong = [q for q in fin if q[0] == a["name"] and q[3] == "src" and not ref_match(a, q)]
+        if not wrong or not reaches(a["name"], owner_name):
+            return False
+    return True
+
+
 CLASSIFIERS = {
+    "slot-cycle-accepts-wrong-version": _k_slot_cycle_wrong_version,
     "resolver-construction-unhashable-filter": _k_construct_typeerror,
     "idepend-read-from-pdepend": _k_idepend_ignored,
 }
